@@ -42,6 +42,16 @@ type dataset struct {
 	DPs     []dpoint `json:"dps"`
 	Queries []string `json:"queries"`
 	Wins    [][2]int `json:"wins,omitempty"` // per query: time range [t0+lo, t0+hi] (both inclusive); absent = [0, window]
+	// per query index: the request for the metrics-explorer / formula API (queries + formulas JSON,
+	// promql.ProcessMetricsQueryRequest); absent = the query text goes through the PromQL endpoints' call sequence
+	Forms map[int]formReq `json:"forms,omitempty"`
+}
+
+// the body of a metrics-explorer request: named queries and one formula over the names
+type formReq struct {
+	Names   []string `json:"names"`
+	Queries []string `json:"queries"`
+	Formula string   `json:"formula"`
 }
 
 func (d dataset) win(qi int) (int, int) {
@@ -56,6 +66,8 @@ type qobs struct {
 	Query string                        `json:"q"`
 	Res   map[string]map[uint32]float64 `json:"res"`
 	Errs  []string                      `json:"errs,omitempty"`
+	// the answer is a scalar (MetricsResult.IsScalar)
+	Scalar *float64 `json:"scalar,omitempty"`
 }
 type stageObs struct {
 	Stage string   `json:"stage"`
@@ -127,10 +139,51 @@ func runQuery(q string, t0 uint32, lo, hi int) qobs {
 	return o
 }
 
+// the metrics-explorer / formula API: the same function the /metrics-explorer/api/v1/timeseries handler and the
+// alert evaluation call with the parsed request body (queries + formulas)
+func runFormula(f formReq, t0 uint32, lo, hi int) qobs {
+	o := qobs{Query: f.Formula, Res: map[string]map[uint32]float64{}}
+	defer func() {
+		if r := recover(); r != nil {
+			o.Errs = append(o.Errs, fmt.Sprintf("panic: %v", r))
+		}
+	}()
+	var queries []map[string]interface{}
+	for i, n := range f.Names {
+		queries = append(queries, map[string]interface{}{"name": n, "query": f.Queries[i], "qlType": "promql"})
+	}
+	formulas := []map[string]interface{}{{"formula": f.Formula}}
+	qid++
+	r, _, _, _, err := promql.ProcessMetricsQueryRequest(queries, formulas, t0+uint32(lo), t0+uint32(hi), 0, qid)
+	if err != nil {
+		o.Errs = append(o.Errs, "request: "+err.Error())
+		return o
+	}
+	if r == nil {
+		o.Errs = append(o.Errs, "nil result")
+		return o
+	}
+	for _, e := range r.ErrList {
+		o.Errs = append(o.Errs, e.Error())
+	}
+	for k, m := range r.Results {
+		o.Res[k] = m
+	}
+	if r.IsScalar {
+		v := r.ScalarValue
+		o.Scalar = &v
+	}
+	return o
+}
+
 func queryStage(d dataset, stage string) stageObs {
 	so := stageObs{Stage: stage}
 	for qi, q := range d.Queries {
 		lo, hi := d.win(qi)
+		if f, ok := d.Forms[qi]; ok {
+			so.Q = append(so.Q, runFormula(f, d.T0, lo, hi))
+			continue
+		}
 		so.Q = append(so.Q, runQuery(q, d.T0, lo, hi))
 	}
 	return so
@@ -259,7 +312,14 @@ func probeMain(args []string) {
 		fmt.Printf("== stage %s %v\n", so.Stage, so.Errs)
 		for qi, q := range so.Q {
 			lo, hi := d.win(qi)
-			fmt.Printf("  %s   over [+%d,+%d]   errs=%v\n", q.Query, lo, hi, q.Errs)
+			api := ""
+			if f, ok := d.Forms[qi]; ok {
+				api = fmt.Sprintf("   [formula API: %v = %q]", f.Names, f.Queries)
+			}
+			fmt.Printf("  %s   over [+%d,+%d]   errs=%v%s\n", q.Query, lo, hi, q.Errs, api)
+			if q.Scalar != nil {
+				fmt.Printf("     scalar %g\n", *q.Scalar)
+			}
 			var ids []string
 			for id := range q.Res {
 				ids = append(ids, id)
